@@ -74,9 +74,14 @@ def nonEmpty (b : Bytes) (what : String) : Outcome Unit :=
 def pnftAddr (dec : Bytes → Option Bytes) (a : Bytes) : Outcome Unit :=
   if (dec a).isSome then .ok () else .err "pnft:invalid-address"
 
+/-- `0x00` is the `x/nft` key delimiter; identifiers that contain it are refused (fix for F9). -/
+def noNul (b : Bytes) : Outcome Unit :=
+  if b.contains 0x00 then .err "pnft:nul-in-id" else .ok ()
+
 def pnftValidateBasic (dec : Bytes → Option Bytes) : PnftMsg → Outcome Unit
   | .createDenom id name symbol _ _ _ _ creator => do
-    nonEmpty id "id"; nonEmpty name "name"; nonEmpty symbol "symbol"; nonEmpty creator "creator"; pnftAddr dec creator
+    nonEmpty id "id"; noNul id; nonEmpty name "name"; nonEmpty symbol "symbol"; nonEmpty creator "creator"
+    pnftAddr dec creator
   | .updateDenom id _ _ _ _ _ _ updater => do
     nonEmpty id "id"; nonEmpty updater "updater"; pnftAddr dec updater
   | .deleteDenom id remover => do
@@ -84,7 +89,8 @@ def pnftValidateBasic (dec : Bytes → Option Bytes) : PnftMsg → Outcome Unit
   | .transferDenom id sender receiver => do
     nonEmpty id "id"; nonEmpty sender "sender"; pnftAddr dec sender; nonEmpty receiver "receiver"; pnftAddr dec receiver
   | .mintPNFT denomId id name _ _ _ _ creator => do
-    nonEmpty denomId "denomId"; nonEmpty id "id"; nonEmpty name "name"; nonEmpty creator "creator"; pnftAddr dec creator
+    nonEmpty denomId "denomId"; nonEmpty id "id"; nonEmpty name "name"; noNul denomId; noNul id
+    nonEmpty creator "creator"; pnftAddr dec creator
   | .transferPNFT denomId id sender receiver => do
     nonEmpty denomId "denomId"; nonEmpty id "id"; nonEmpty sender "sender"; pnftAddr dec sender
     nonEmpty receiver "receiver"; pnftAddr dec receiver
